@@ -575,10 +575,10 @@ theorem den_by_name (t : Tbl) (hw : WF t) (hV : VarsBij t) (u : Int) (hu : t.Mem
 
 /-- `add_expr(to_expr(u)) == u` -/
 theorem addExpr_toExpr (m : Mgr) (hI : Inv m) (hoff : m.lastLen = none) (hV : VarsBij m.tbl)
-    (hn : ∀ (lvl : Nat) (v : String), m.tbl.l2v[lvl]? = some v → nameOk v)
-    (u : Int) (hu : m.tbl.Mem u) (s : String) (h : toExpr m.tbl u = .ok s) :
+    (u : Int) (hn : NamesBelow m.tbl u)
+    (hu : m.tbl.Mem u) (s : String) (h : toExpr m.tbl u = .ok s) :
     ∃ m', addExpr s m = (.ok u, m') ∧ Step m m' := by
-  obtain ⟨f, a, ha, _, hp⟩ := parse_toExpr m.tbl hn u s h
+  obtain ⟨f, a, ha, _, hp⟩ := parse_toExpr m.tbl u hn s h
   obtain ⟨hM, hsem⟩ := toExprAst_sem m.tbl hI.wf.toWF hV f u a ha hu
   obtain ⟨r, m', he, hs, hm, hd⟩ := addExpr_spec m hI hoff hV s a hp hM
   have hV' := hV.frame' hs.frame
